@@ -129,9 +129,12 @@ Definition k02_ev (persistent : bool) (k : k02) (e : event) : k02 :=
 Definition is_connack0 (e : event) : bool := match e with Inp (IConnack rc) => rc =? 0 | _ => false end.
 Definition pubrel_tags (sel : event -> option pkt) (evs : list event) : list Z :=
   flat_map (fun e => match sel e with Some (PPubrel _ tag) => [tag] | _ => [] end) evs.
+Definition is_socklost (e : event) : bool := match e with SockLost => true | _ => false end.
+(* ... provided the connection survives that operation: when a write fails hard inside it the connection is gone,
+   and the PUBREL is handed to the next one *)
 Definition k02_op (persistent : bool) (k : k02) (evs : list event) : k02 :=
   let k' := fold_left (k02_ev persistent) evs k in
-  if persistent && existsb is_connack0 evs then
+  if persistent && existsb is_connack0 evs && negb (existsb is_socklost evs) then
     mkK02 (k2_live k') (k2_h1 k') (k2_h2 k') (k2_sent k') (k2_rec k') (k2_blk k')
           (k2_ok k' && forallb (fun t => zin t (pubrel_tags handed_sel evs)
                                          && (k2_blk k' || zin t (pubrel_tags tx_sel evs))) (k2_rec k))
